@@ -11,6 +11,7 @@ CONSTANTS
   InitRems = {0}
   NTerms = 1
   ChainPeriods = {}
+  ChainTermInts = {}
   Starts = {}
   NodeAts = {}
   KeepHist = FALSE
